@@ -21,13 +21,16 @@ RULE = (
     "skeletons with valid Tetrahedral / SquarePlanar / TBP / Octahedral "
     "decorations incl. 3-coordinate lone-pair centres; (organic) molecules "
     "from the RDKit generator imported and renamed in the model; (ez) "
-    "organic molecules with isolated C=C bonds exported with "
-    "generate_bond_orders=True. Oracle: back = from_rdmol(g._to_rdmol(...), "
+    "organic molecules with isolated C=C, C=N and N=N bonds (lone-pair "
+    "placeholders in every position of the PlanarBond spelling) exported "
+    "with generate_bond_orders=True. Oracle: back = from_rdmol(g._to_rdmol(...), "
     "use_atom_map_number=True) (also RDMol2StereoMolGraph with the other "
     "stereo_complete / resonance combinations, lone_pair_stereo=True) has "
     "the same atom ids, elements and bonds; every atom-centred descriptor "
     "of g with specified parity reappears on the same atom as an equivalent "
-    "descriptor (geometric canonical form); with regenerated bond orders the "
+    "descriptor (geometric canonical form), and every descriptor with "
+    "unspecified parity as a descriptor of the same class over the same "
+    "atoms; with regenerated bond orders the "
     "PlanarBond of every isolated double bond reappears equivalent; the "
     "exported graph's snapshot is unchanged. Non-trivial: >= 1 specified "
     "atom-centred descriptor and ids != 0..n-1; distinct = SHA-1."
@@ -80,6 +83,8 @@ def gen_complex(tp):
         m.add_bond(centre, a)
     atoms = [centre] + tp.shuffle(ligs + ([None] if lone else []))
     par = 0 if sym.ACHIRAL[cls] else tp.pick([1, -1])
+    if tp.chance(40):
+        par = None                  # descriptor with unspecified parity
     m.set_atom_stereo([cls, atoms, par])
     # optionally: a ligand that is itself a tetrahedral centre
     if tp.chance(70) and nl >= 1:
@@ -125,8 +130,22 @@ def gen(data: bytes):
         a = pre.get(a, a)
         c, d = tp.shuffle(subs)[:2]
         bs = chr(92)
-        smi = (f"{a}/C({b})=C(/{c}){d}" if tp.chance(128)
-               else f"{a}/C({b})=C({bs}{c}){d}")
+        kind = tp.weighted([5, 2, 2, 1])
+        sl = "/" if tp.chance(128) else bs
+        if kind == 0:
+            smi = f"{a}/C({b})=C({sl}{c}){d}"
+        elif kind == 1:             # imine / oxime: lone pair on one end
+            c = {"[H]": "C", "CO": "O", "C(F)F": "C", "CCl": "C"}.get(c, c)
+            c = c if c in ("C", "CC", "O", "F", "Cl", "C(C)C") else "C"
+            smi = f"{a}/C({b})=N{sl}{c}"
+        elif kind == 2:             # azo: lone pairs on both ends
+            a2 = a if a in ("C", "CC", "F", "Cl") else "C"
+            c = c if c in ("C", "CC", "F", "Cl", "C(C)C") else "C"
+            smi = f"{a2}/N=N{sl}{c}"
+        else:                       # imine written from the nitrogen
+            c = c if c in ("C", "CC", "C(C)C") else "C"
+            a3 = a if a in ("C", "F", "Cl", "Br", "CC", "I") else "C"
+            smi = f"{c}{sl}N=C(/{a3}){b}"
     else:
         smi = rdgen.organic_smiles(tp, max_heavy=8) or "C[C@H](F)Cl"
     mol = rdgen.mol_from_smiles(smi)
@@ -180,8 +199,8 @@ def source_graph(ctx, case):
             if b.GetStereo() in (Chem.BondStereo.STEREOZ,
                                  Chem.BondStereo.STEREOE) \
                     and not b.IsInRing() and not b.GetIsConjugated() \
-                    and b.GetBeginAtom().GetAtomicNum() == 6 \
-                    and b.GetEndAtom().GetAtomicNum() == 6:
+                    and b.GetBeginAtom().GetAtomicNum() in (6, 7) \
+                    and b.GetEndAtom().GetAtomicNum() in (6, 7):
                 k = frozenset((ids[b.GetBeginAtomIdx()],
                                ids[b.GetEndAtomIdx()]))
                 if k in m.bond_stereo:
@@ -245,10 +264,17 @@ def check_case(ctx, case):
             raise Violation("C13/bonds-differ",
                             f"{sorted(set(sb['bonds']) ^ set(s0['bonds']))}")
         for c, dsc in m.atom_stereo.items():
-            if dsc[2] is None:
-                continue
             got = sb["atom_stereo"].get(c)
             lone = "lonepair" if None in dsc[1] else "full"
+            if dsc[2] is None:
+                # an unspecified descriptor equals every descriptor of its
+                # class over the same atoms: that much has to come back
+                if got is None or got[0] != dsc[0] or \
+                        sorted(map(str, got[1])) != sorted(map(str, dsc[1])):
+                    raise Violation(
+                        f"C13/descriptor-lost/{dsc[0]}/{lone}/unspecified",
+                        f"atom {c}: {dsc} came back as {got}")
+                continue
             if got is None:
                 raise Violation(
                     f"C13/descriptor-lost/{dsc[0]}/{lone}",
